@@ -476,3 +476,82 @@ def CB6(inp):
         cl['stale_reply_does_not_touch_B'] = callsB_after_stale == [] and regsB_stale == []
         cl['B_registered_under_its_own_reply_only'] = len(regsB) == 1 and bool(And(Eq(regsB[0][0], new_idx), Eq(regsB[0][1], new_term))) and recB.calls == []
     return Res(cl, nontrivial=True, obs=lambda: dict(calls=dict(A=show(recA.calls), B=show(recB.calls)), fwd=[(nd.id, m.get('request_id')) for nd, m in fwd], exc=show(exc)))
+
+
+class _Raiser(Rec):
+    """a user callback that raises"""
+
+    def __call__(self, res, err):
+        Rec.__call__(self, res, err)
+        raise RuntimeError('callback failed')
+
+
+@obligation('CB7', props=('C02', 'C01', 'C15'), quick=[dict(n=2), dict(n=3)], thorough=[dict(n=2), dict(n=3), dict(n=4)], stubs=_STUBS2,
+            bounds='n<=4 committed add(x) entries (x symbolic) not yet applied; a subscriber of any one of them raises, an ordinary subscriber sits on every other one; the tick is repeated '
+                   'twice, as the tick thread does after an exception')
+def CB7(inp, n):
+    """a callback that raises: whether or not the exception leaves the tick, no entry is executed twice when ticking goes on -
+    the object state is the fold of the committed entries, each once -, the applied index reaches the commit index, the raising
+    callback was called once and every other subscriber exactly once with its own result."""
+    o, tr, now = _mk_acc(inp)
+    commands, meta = _entries(inp, o, n, ('add',))
+    p = so.sym_state(inp, o, now, n, role=F, term_hi=T_HI, base_hi=1, connected=(), commands=commands)
+    inp.assume(And(p.deadline >= now + 10, Eq(p.applied, p.base), Eq(p.commit, p.last)))
+    bad = inp.choice('raising_at', n - 1) + 1          # the entry at p.log[0] is applied already
+    wc = get(o, 'commandsWaitingCommit')
+    recs = {}
+    for i in range(1, n):
+        rec = _Raiser('e%d' % i) if i == bad else Rec('e%d' % i)
+        wc[p.log[i][1]].append((p.log[i][2], rec))
+        recs[i] = rec
+    excs = []
+    for _ in range(3):
+        _, e = guard(o._onTick, 0.0)
+        excs.append(e)
+    q = so.post_state(o)
+    results, total = _running_results(p, meta, p.base, p.last)
+    cl = {'only_the_callback_exception_may_escape': all(e is None or isinstance(e, RuntimeError) for e in excs)}
+    cl['each_entry_executed_once'] = And(Eq(o.total, total), len(o.seq) == n - 1)
+    cl['applied_reaches_commit'] = Eq(q.applied, p.commit)
+    cl['raising_callback_called_once'] = len(recs[bad].calls) == 1
+    cl['other_callbacks_called_once_with_own_result'] = And([len(recs[i].calls) == 1 and And(Eq(recs[i].calls[0][0], results[i]), Eq(recs[i].calls[0][1], FAIL_REASON.SUCCESS))
+                                                             for i in range(1, n) if i != bad] or [True])
+    return Res(cl, nontrivial=True, obs=lambda: dict(n=n, raising_at=bad, total=show(o.total), seq=show(o.seq), applied=show(q.applied), excs=[show(e) for e in excs]))
+
+
+@obligation('CB8', props=('C02',), quick=[dict()], stubs=_STUBS2,
+            bounds='two incarnations (two objects, same node id) of a follower; each forwards its first k<=2 commands to the leader; any late reply for a request of the first incarnation '
+                   '(error or index/term) reaches the second; 4 restarts in a row compared')
+def CB8(inp):
+    """forwarded requests across a restart: the request ids of a new process do not repeat those of its previous incarnation, so
+    a late reply (or rejection) for a command the old process had forwarded - the leader may hold it in its queue for as long as
+    it knows no leader - never reaches the callback of a command the new process forwarded."""
+    ids = []
+    objs = []
+    now = inp.real('now', 0)
+    clock = so.Clock(now)
+    for gen in range(4):
+        o, tr = so.make('a', IDS[1:3], clock, inp, cls=Acc)
+        cmds.install(inp)
+        put(o, 'raftLeader', Node('b')); put(o, 'raftElectionDeadline', now + 100)
+        get(o, 'connectedNodes').add(Node('b'))
+        recs = [Rec('g%d_%d' % (gen, i)) for i in range(2)]
+        for i in range(2):
+            o._applyCommand(cmds.regular(inp, o._methodToID['add_v0'], (1 + i,)), recs[i])
+        o._checkCommandsToApply()
+        fwd = [m for nd, m in tr.sent if m['type'] == 'apply_command']
+        ids.append([m.get('request_id') for m in fwd])
+        objs.append((o, recs))
+    cl = {'all_forwarded_with_an_id': all(len(x) == 2 and None not in x for x in ids)}
+    flat = [r for x in ids for r in x]
+    cl['request_ids_unique_across_incarnations'] = len(set(flat)) == len(flat)
+    # the late reply of the first incarnation's first request arrives at the last incarnation
+    o, recs = objs[-1]
+    is_err = inp.flag('late_is_error')
+    late = {'type': 'apply_command_response', 'request_id': ids[0][0]}
+    late.update({'error': FAIL_REASON.NOT_LEADER} if is_err else {'log_idx': inp.int('late_idx', 2, 9), 'log_term': inp.int('late_term', 0, 3)})
+    _, exc = guard(getattr(o, P + 'onMessageReceived'), Node('b'), late)
+    wc = get(o, 'commandsWaitingCommit')
+    regs = [(i, t) for i, lst in wc.items() for t, cb in lst if cb in recs]
+    cl['late_reply_reaches_no_callback_of_the_new_process'] = exc is None and all(r.calls == [] for r in recs) and regs == []
+    return Res(cl, nontrivial=True, obs=lambda: dict(ids=ids, calls=[show(r.calls) for r in recs], exc=show(exc)))
